@@ -81,7 +81,9 @@ Defaults(s) ==
     [] s \in {"groups", "groups2"} -> {"allow", "errno"}
     [] OTHER -> {"allow"}
 Targets(s) ==   \* values of pol.x86
-  CASE s \in {"groups", "groups2", "actions", "many", "manywide", "defects"} -> {TRUE, FALSE}
+  \* FALSE: the policy is compiled for an architecture other than x86_64 (the replay rotates i386, arm, aarch64: the two 32-bit
+  \* architectures compare the full 64 bits of an argument like the others)
+  CASE s \in {"groups", "groups2", "actions", "many", "manywide", "defects", "single", "boundary", "allops", "deep"} -> {TRUE, FALSE}
     [] OTHER -> {TRUE}
 
 ---------------------------------------------------------------------------
